@@ -98,6 +98,7 @@ def dimension_obligations(rep, name):
         rules = {k: ((v[0], Fraction(v[1])) if grading == "length" else (v[2], Fraction(v[3]))) for k, v in STUB_RULES.items()}
         for f in "BHJM":
             paths = [p for p in sp.run(f, args=args) if "out" in p]
+            bhjm.report_problems(rep, sp, f"{name}.{f}.{grading}", fn["function"])
             rep.paths += len(paths)
             if grading == "length":
                 want = Fraction(sp.homog if f in "BH" else 0)
